@@ -2429,10 +2429,15 @@ func RunTwoStreamsFirst(r *chk.Run) {
 func RunNested(r *chk.Run) {
 	var n int64
 	cfgs := Cfgs()
+	stop := false
 	run := func(in NestInput) {
+		if stop {
+			return // one counterexample is enough: a blocked pair costs 20 s per execution
+		}
 		n++
 		why := checkNest(in)
 		if why != "" && why != "HUNG" {
+			stop = true
 			key := "two-streams"
 			if strings.Contains(why, "did not come to an end") {
 				key = "two-streams:blocked"
